@@ -556,7 +556,7 @@ def run(ctx):
                 idx += 1
                 if not ctx.mine(idx):
                     continue
-                if (idx & 0x3ff) == 0 and ctx.expired():
+                if ((idx // ctx.nshards) & 0x7f) == 0 and ctx.expired():      # counted per shard: idx itself is filtered by mine()
                     done = False
                     break
                 text, k = seq_text(seq)
